@@ -127,6 +127,7 @@ pub fn split_log(entries: &[Entry]) -> TrLog {
             Kind::New => {}
             Kind::CloneOf => clones.push(e.tid),
             Kind::Append if Some(e.tid) == main => t.ops.push((0, e.label.clone(), e.data.clone())),
+            Kind::Challenge if Some(e.tid) == main && e.label == b"verif-followup" => {}
             Kind::Challenge if Some(e.tid) == main => {
                 t.ops.push((3, e.label.clone(), e.data.clone()))
             }
@@ -166,6 +167,8 @@ pub struct ProverRun<G: AffineRepr> {
     pub result: Result<Result<R1CSProof<G>, R1CSError>, ()>,
     pub log: TrLog,
     pub panic_msg: String,
+    /// 32 challenge bytes drawn from the caller's transcript after prove() returned
+    pub followup: Vec<u8>,
 }
 
 thread_local! {
@@ -202,8 +205,10 @@ pub fn run_prover<G: AffineRepr>(
         merlin::instr::force_draw_bytes(&forced_bytes(x));
     }
     merlin::instr::start();
+    let followup = std::cell::RefCell::new(vec![]);
     let res = catch_unwind(AssertUnwindSafe(|| {
         let mut t = Transcript::new(label);
+        let r = {
         let mut prover = Prover::new(pc, &mut t);
         for op in prog {
             match op {
@@ -224,8 +229,13 @@ pub fn run_prover<G: AffineRepr>(
         for (i, l, r, o) in gate_ov {
             prover.verif_set_gate(*i, *l, *r, *o);
         }
-        let mut rng = ChaChaRng::seed_from_u64(ext_seed);
+        let mut rng = HeaderRng::new(ext_seed);
         prover.prove(&mut rng, bp)
+        };
+        let mut buf = [0u8; 32];
+        t.challenge_bytes(b"verif-followup", &mut buf);
+        *followup.borrow_mut() = buf.to_vec();
+        r
     }));
     let entries = merlin::instr::stop();
     merlin::instr::clear_forced();
@@ -240,8 +250,27 @@ pub fn run_prover<G: AffineRepr>(
         result: res.map_err(|_| ()),
         log: split_log(&entries),
         panic_msg,
+        followup: followup.into_inner(),
     }
 }
+
+/// external randomness handed to prove(): a ChaCha stream; when bit 63 of the seed is set, the first 8 bytes of
+/// the stream are a constant header (two such generators agree on their first u64 and differ afterwards)
+pub struct HeaderRng { inner: ChaChaRng, header_left: usize }
+impl HeaderRng {
+    pub fn new(seed: u64) -> Self { HeaderRng { inner: ChaChaRng::seed_from_u64(seed), header_left: if seed >> 63 == 1 { 8 } else { 0 } } }
+}
+impl rand_core::RngCore for HeaderRng {
+    fn next_u32(&mut self) -> u32 { let mut b = [0u8; 4]; self.fill_bytes(&mut b); u32::from_le_bytes(b) }
+    fn next_u64(&mut self) -> u64 { let mut b = [0u8; 8]; self.fill_bytes(&mut b); u64::from_le_bytes(b) }
+    fn fill_bytes(&mut self, dest: &mut [u8]) {
+        for x in dest.iter_mut() {
+            if self.header_left > 0 { *x = 0xA5; self.header_left -= 1; } else { let mut b = [0u8; 1]; self.inner.fill_bytes(&mut b); *x = b[0]; }
+        }
+    }
+    fn try_fill_bytes(&mut self, dest: &mut [u8]) -> Result<(), rand_core::Error> { self.fill_bytes(dest); Ok(()) }
+}
+impl rand_core::CryptoRng for HeaderRng {}
 
 pub struct VerifierRun<F> {
     pub events1: Vec<Event>,
@@ -253,6 +282,8 @@ pub struct VerifierRun<F> {
     pub verdict: Result<Result<(), R1CSError>, ()>,
     pub log_verify: TrLog,
     pub panic_msg: String,
+    /// 32 challenge bytes drawn from the caller's transcript after verify() returned
+    pub followup: Vec<u8>,
 }
 
 fn drive_verifier<G: AffineRepr>(
@@ -306,11 +337,18 @@ pub fn run_verifier<G: AffineRepr>(
     let l1: EvLog = Rc::new(RefCell::new(vec![]));
     let l2: EvLog = Rc::new(RefCell::new(vec![]));
     merlin::instr::start();
+    let vfollow = std::cell::RefCell::new(vec![]);
     let verdict = catch_unwind(AssertUnwindSafe(|| {
         let mut t = Transcript::new(label);
-        let mut verifier = Verifier::new(&mut t);
-        drive_verifier(&mut verifier, prog, commitments, &l1, &l2);
-        verifier.verify(proof, pc, bp)
+        let r = {
+            let mut verifier = Verifier::new(&mut t);
+            drive_verifier(&mut verifier, prog, commitments, &l1, &l2);
+            verifier.verify(proof, pc, bp)
+        };
+        let mut buf = [0u8; 32];
+        t.challenge_bytes(b"verif-followup", &mut buf);
+        *vfollow.borrow_mut() = buf.to_vec();
+        r
     }));
     let entries2 = merlin::instr::stop();
     if verdict.is_err() {
@@ -324,6 +362,7 @@ pub fn run_verifier<G: AffineRepr>(
         verdict: verdict.map_err(|_| ()),
         log_verify: split_log(&entries2),
         panic_msg,
+        followup: vfollow.into_inner(),
     }
 }
 
